@@ -9,7 +9,7 @@ from vlib import Machinery, read_ndjson
 import props.iss_common as ic
 
 META = {
-    "technique": "TLA+ ideal signature functionality (Ideal.tla: a signature is the term sig(k, Eff(alg), m), verification is term equality) with mutation operators on each of the four arguments; TLC enumerates algorithm x key type/size x target x mutation, proves accept <=> unmutated on the enumeration, and judges the observations recorded from the real verifiers (CheckSignatureFromKey, Certificate.CheckSignature, rsa.VerifyPKCS1v15/VerifyPSS, dsa.Verify) on real keys; a second machine enumerates object kind x key type x requested algorithm, creates each object with the library and verifies it with its own API",
+    "technique": "TLA+ ideal signature functionality (Ideal.tla: a signature is the term sig(k, Eff(alg), m), verification is term equality) with byte-level and algebraic mutation operators on each of the four arguments ((r, s + k*order), (r + order, s), boundary values 0 / order, negative INTEGERs for DSA and ECDSA; s + N and leading-zero variants for RSA; ECDSA (r, n - s) left open as malleability); TLC enumerates algorithm x key type/size x target x mutation, proves accept <=> unmutated on the enumeration, and judges the observations recorded from the real verifiers (CheckSignatureFromKey, Certificate.CheckSignature, rsa.VerifyPKCS1v15/VerifyPSS, dsa.Verify, and the signature value replaced inside library-created certificates, CSRs, CRLs, revocation lists and OCSP responses checked through their own CheckSignature APIs) on real keys; a second machine enumerates object kind x key type x requested algorithm, creates each object with the library and verifies it with its own API",
     "text": "What zcrypto owns in signature verification is the binding of (key, message, algorithm) to the primitive: which hash is applied, which padding is expected, whether the whole signature encoding is consumed. The specification states this as an ideal functionality and TLC enumerates the complete product of algorithms, key types, mutation targets and mutation classes (checking the theorem accept <=> unmutated on it); each abstract case is instantiated at several seeded positions with genuine signatures from the standard library and from zcrypto's own signers, on every verification path. Mutated tuples are additionally shown to the standard library's verifier, so a mutation that is itself valid is never counted. Exhaustive over the abstract cases, sampled over positions, messages and keys.",
     "note": "Trusted: TLC, Go toolchain, the primitives of the standard library (hashes, RSA, ECDSA, Ed25519, DSA) as interpretation of the symbols. Left open (logged, not judged): a change of the algorithm label only where the effective (scheme-from-key, hash, padding) triple is unchanged because the verifier dispatches on the key type. PSS is exercised with salt length = hash length (what the library signs and expects). Keys are fresh per process; replays re-instantiate the abstract case at new positions.",
 }
@@ -97,7 +97,8 @@ def run(ctx):
                                "std_also_accepts_mutation": sum(1 for r in vrecs + rrecs if r["stdAccept"] == "yes")}
     ctx.cov["rule"] = ("every (key type, algorithm of its family, target in {none, msg, sig, key, alg}, mutation class) with the verdict "
                        "the ideal functionality allows, instantiated %d times per positional mutation on every verification path and "
-                       "signer; every (object kind, key type, requested algorithm); non-trivial = the case has a single allowed verdict "
+                       "signer, signature-only cases also with the signature value replaced inside library-created certificates / CSRs / CRLs / "
+                       "revocation lists / OCSP responses; every (object kind, key type, requested algorithm); non-trivial = the case has a single allowed verdict "
                        "(not a label-only change) resp. the pair is in the acceptance table; plus seeded random multi-byte mutations" % inst)
     open_obs = [r for r in vrecs if r["c"]["target"] == "alg" and r["accept"]]
     ctx.note("label-only changes accepted by the verifier (left open, logged): %d observations, e.g. %s"
